@@ -149,6 +149,7 @@ func tryQueueReloadRequest(
 		if log != nil {
 			log.Warnln("[Reload] Reload already in progress or handoff pending; ignoring this signal")
 		}
+		verifYield("queue:refused-before-report")
 		restoreRejectedReloadProgress(reloadActive, false)
 		// The in-flight reload may have released reloadPending (and already run
 		// clearRejectedReloadProgress) between the failed CAS above and the busy
@@ -207,6 +208,7 @@ func clearReloadPending(flag *atomic.Bool) {
 	if flag != nil {
 		flag.Store(false)
 	}
+	verifYield("release:pending-cleared")
 	endReloadProxyFailureSuppression()
 	clearRejectedReloadProgress()
 }
@@ -872,6 +874,7 @@ func beginReloadHandoff(reloading *atomic.Bool, runStateChanges chan<- struct{})
 	if reloading != nil {
 		reloading.Store(true)
 	}
+	verifYield("handoff:flagged-before-notify")
 	notifyRunStateChange(runStateChanges)
 }
 
